@@ -10,6 +10,7 @@ package phealth
 import (
 	"context"
 	"encoding/json"
+	"errors"
 	"fmt"
 	"net/http/httptest"
 	"os"
@@ -20,6 +21,8 @@ import (
 	"testing"
 	"testing/synctest"
 	"time"
+
+	"golang.org/x/sync/errgroup"
 
 	"github.com/metal-toolbox/audito-maldito/internal/common"
 	"github.com/metal-toolbox/audito-maldito/internal/health"
@@ -521,6 +524,17 @@ func waitExplore(t *testing.T, run *mc.Run, cov *mc.Coverage, maxLen int) {
 				run.Violation("C18:wait:"+want[len(want)-1]+"-vs-"+got[len(got)-1], map[string]any{"kind": "wait", "events": seq},
 					fmt.Sprintf("WaitForReady with a,b registered; events %v: channel states after each event %v, expected %v", seq, got, want))
 			}
+			if contains(seq, "cancel") {
+				// the same with the other ways a context gets cancelled: with a cause of its own, as the child of
+				// such a context, as the context of an errgroup one of whose workers failed (what the daemon passes)
+				for _, shape := range ctxShapes[1:] {
+					n++
+					if g, w := runWaitShape(t, seq, false, shape); strings.Join(g, ",") != strings.Join(w, ",") {
+						run.Violation("C18:wait:"+shape+":"+w[len(w)-1]+"-vs-"+g[len(g)-1], map[string]any{"kind": "wait", "events": seq, "shape": shape},
+							fmt.Sprintf("WaitForReady with a,b registered, context cancelled as %s; events %v: channel states after each event %v, expected %v (err = the context's error)", shape, seq, g, w))
+					}
+				}
+			}
 			if len(cov.Samples) < 7 && len(seq) == maxLen {
 				cov.Samples = append(cov.Samples, fmt.Sprintf("wait: %v -> %v", seq, got))
 			}
@@ -552,12 +566,35 @@ func contains(s []string, x string) bool {
 	return false
 }
 
+var ctxShapes = []string{"plain", "cancel-cause", "child-of-cancel-cause", "errgroup-worker-failed"}
+
+var errBoom = errors.New("worker failed: boom")
+
 func runWait(t *testing.T, seq []string, late bool) (got, want []string) {
+	return runWaitShape(t, seq, late, "plain")
+}
+
+func runWaitShape(t *testing.T, seq []string, late bool, shape string) (got, want []string) {
 	synctest.Test(t, func(t *testing.T) {
 		h := health.NewHealth()
 		h.AddReadiness("a")
 		h.AddReadiness("b")
 		ctx, cancel := context.WithCancel(context.Background())
+		switch shape {
+		case "cancel-cause":
+			c, cc := context.WithCancelCause(context.Background())
+			ctx, cancel = c, func() { cc(errBoom) }
+		case "child-of-cancel-cause":
+			c, cc := context.WithCancelCause(context.Background())
+			c2, c2c := context.WithCancel(c)
+			ctx, cancel = c2, func() { cc(errBoom); c2c() }
+		case "errgroup-worker-failed":
+			g, c := errgroup.WithContext(context.Background())
+			fail := make(chan struct{})
+			g.Go(func() error { <-fail; return errBoom })
+			var once sync.Once
+			ctx, cancel = c, func() { once.Do(func() { close(fail); _ = g.Wait() }) }
+		}
 		defer cancel()
 		ch := h.WaitForReady(ctx)
 		synctest.Wait()
@@ -592,7 +629,7 @@ func runWait(t *testing.T, seq []string, late bool) (got, want []string) {
 				case v, ok := <-ch:
 					if !ok {
 						obs = "closed"
-					} else if v == context.Canceled {
+					} else if v == ctx.Err() && v == context.Canceled {
 						obs = "err"
 					} else {
 						obs = fmt.Sprintf("value(%v)", v)
@@ -624,6 +661,7 @@ func runC18(t *testing.T, run *mc.Run) int {
 			Choices []int    `json:"choices"`
 			Events  []string `json:"events"`
 			Late    bool     `json:"late"`
+			Shape   string   `json:"shape"`
 		}
 		if _, err := mc.LoadReplay(run.Replay, &rp); err != nil {
 			fmt.Println(err)
@@ -631,7 +669,10 @@ func runC18(t *testing.T, run *mc.Run) int {
 		}
 		switch rp.Kind {
 		case "wait":
-			got, want := runWait(t, rp.Events, rp.Late)
+			if rp.Shape == "" {
+				rp.Shape = "plain"
+			}
+			got, want := runWaitShape(t, rp.Events, rp.Late, rp.Shape)
 			fmt.Println("got ", got, "\nwant", want)
 			if rp.Late {
 				got, want = got[len(got)-1:], want[len(want)-1:]
